@@ -101,6 +101,8 @@ pub struct LawOut {
     pub info: JudgeInfo,
     pub screen_rejects: u64,
     pub violation: Option<(String, String)>, // class, detail
+    /// signature tags of a law violation (size and place of the deviation)
+    pub vtags: Vec<String>,
     pub digest: u64,
     pub skipped_tests: u64,
 }
@@ -199,7 +201,9 @@ fn scalar_law_test(
             Err(v) => out.violation = Some(v),
             Ok(c2) => {
                 let (rej2, _) = table.judge(&c2, ALPHA_CONFIRM, extra);
-                out.violation = confirmed(label, &rej, n, &rej2, 4 * n);
+                let mut vt = Vec::new();
+                out.violation = confirmed(label, &rej, n, &rej2, 4 * n, &mut vt);
+                out.vtags = vt;
             }
         }
     }
@@ -208,10 +212,11 @@ fn scalar_law_test(
 }
 
 /// a violation is declared only if the same kind of test rejects on both streams
-fn confirmed(label: &str, r1: &[Reject], n1: u64, r2: &[Reject], n2: u64) -> Option<(String, String)> {
+fn confirmed(label: &str, r1: &[Reject], n1: u64, r2: &[Reject], n2: u64, tags: &mut Vec<String>) -> Option<(String, String)> {
     for a in r1 {
         for b in r2 {
             if a.test == b.test {
+                *tags = b.tags();
                 return Some((format!("law({})", a.test), describe(label, a, n1, b, n2)));
             }
         }
@@ -398,7 +403,9 @@ pub fn disc_test(spec: &DistSpec, n: u64, seed: u64) -> Result<LawOut, String> {
                     Err(v) => out.violation = Some(v),
                     Ok(c2) => {
                         let (rej2, _) = table.judge(&c2, ALPHA_CONFIRM, extra);
-                        out.violation = confirmed(&label, &rej, n, &rej2, 4 * n);
+                        let mut vt = Vec::new();
+                        out.violation = confirmed(&label, &rej, n, &rej2, 4 * n, &mut vt);
+                        out.vtags = vt;
                     }
                 }
             }
@@ -623,6 +630,7 @@ pub fn dirichlet_test(spec: &DistSpec, n: u64, seed: u64) -> Result<(LawOut, u64
         total.info.g_ratio = total.info.g_ratio.max(o.info.g_ratio);
         total.digest ^= o.digest.rotate_left(si as u32);
         if o.violation.is_some() {
+            total.vtags = o.vtags.clone();
             total.violation = o.violation;
             break;
         }
@@ -727,6 +735,7 @@ pub fn geometry_test(spec: &DistSpec, n: u64, seed: u64) -> Result<(LawOut, u64)
         total.info.g_ratio = total.info.g_ratio.max(o.info.g_ratio);
         total.digest ^= o.digest.rotate_left(si as u32);
         if o.violation.is_some() {
+            total.vtags = o.vtags.clone();
             total.violation = o.violation;
             break;
         }
@@ -870,6 +879,14 @@ fn sig_of(spec: &DistSpec, class: &str) -> BTreeMap<String, String> {
     sig
 }
 
+fn sig_with_tags(spec: &DistSpec, class: &str, tags: &[String]) -> BTreeMap<String, String> {
+    let mut sig = sig_of(spec, class);
+    if !tags.is_empty() {
+        sig.insert("tags".into(), tags.join(","));
+    }
+    sig
+}
+
 fn absorb(res: &mut CaseResult, o: &LawOut) {
     res.evaluations += o.samples;
     res.sim_words += o.words;
@@ -946,9 +963,9 @@ impl Engine for LawEngine {
         let mut res = CaseResult::new(index);
         let seed = mix(&[ctx.seed, 0x1A4, index as u64]);
         let n_central = if ctx.tier == Tier::Thorough { 1024 } else { 256 };
-        let push_violation = |res: &mut CaseResult, spec: &DistSpec, kind: &str, n: u64, m: u64, class: String, detail: String| {
+        let push_violation = |res: &mut CaseResult, spec: &DistSpec, kind: &str, n: u64, m: u64, class: String, detail: String, tags: &[String]| {
             let case = LawCase { kind: kind.into(), spec: spec.clone(), n, seed, m };
-            res.violations.push(Violation { sig: sig_of(spec, &class), class, detail, case: serde_json::to_value(&case).unwrap() });
+            res.violations.push(Violation { sig: sig_with_tags(spec, &class, tags), class, detail, case: serde_json::to_value(&case).unwrap() });
         };
         match job {
             Job::Cont(spec, n) => match cont_test(spec, *n, seed, n_central) {
@@ -964,8 +981,9 @@ impl Engine for LawEngine {
                     if index % 40 == 0 {
                         res.samples.push(json!({"configuration": spec.label(), "N": n, "edges": o.info.edges, "dropped": o.info.edges_dropped_unresolvable, "worst_dkw_ratio": o.info.worst_dkw_ratio, "worst_cell_margin": o.info.worst_cell_margin, "words": o.words}));
                     }
+                    let vt = o.vtags.clone();
                     if let Some((c, d)) = o.violation {
-                        push_violation(&mut res, spec, "law-cont", *n, 0, c, d);
+                        push_violation(&mut res, spec, "law-cont", *n, 0, c, d, &vt);
                     }
                 }
             },
@@ -978,8 +996,9 @@ impl Engine for LawEngine {
                     if index % 30 == 0 {
                         res.samples.push(json!({"configuration": spec.label(), "N": n, "edges": o.info.edges, "worst_dkw_ratio": o.info.worst_dkw_ratio, "worst_cell_margin": o.info.worst_cell_margin}));
                     }
+                    let vt = o.vtags.clone();
                     if let Some((c, d)) = o.violation {
-                        push_violation(&mut res, spec, "law-disc", *n, 0, c, d);
+                        push_violation(&mut res, spec, "law-disc", *n, 0, c, d, &vt);
                     }
                 }
             },
@@ -996,9 +1015,10 @@ impl Engine for LawEngine {
                                 absorb(&mut res, &o);
                                 res.keys.push(hash_key(&[&spec.label(), "stat"]));
                                 dg.add(o.digest);
-                                if let Some((c, d)) = o.violation {
+                                let vt = o.vtags.clone();
+                    if let Some((c, d)) = o.violation {
                                     if seen.insert(c.clone()) {
-                                        push_violation(&mut res, spec, "law-disc", 200_000, 0, c, d);
+                                        push_violation(&mut res, spec, "law-disc", 200_000, 0, c, d, &vt);
                                     }
                                 }
                             }
@@ -1012,9 +1032,10 @@ impl Engine for LawEngine {
                             res.stat_max("lattice_worst_dev_over_tol", o.info.worst_cell_margin);
                             res.keys.push(hash_key(&[&spec.label(), "lattice"]));
                             dg.add(o.digest);
-                            if let Some((c, d)) = o.violation {
+                            let vt = o.vtags.clone();
+                    if let Some((c, d)) = o.violation {
                                 if seen.insert(c.clone()) {
-                                    push_violation(&mut res, spec, "lattice", 0, *m, c, d);
+                                    push_violation(&mut res, spec, "lattice", 0, *m, c, d, &vt);
                                 }
                             }
                         }
@@ -1035,8 +1056,9 @@ impl Engine for LawEngine {
                     if index % 8 == 0 {
                         res.samples.push(json!({"alpha": spec.label(), "N": n, "scalar_tests": tests, "worst_dkw_ratio": o.info.worst_dkw_ratio, "worst_cell_margin": o.info.worst_cell_margin}));
                     }
+                    let vt = o.vtags.clone();
                     if let Some((c, d)) = o.violation {
-                        push_violation(&mut res, spec, "dirichlet", *n, 0, c, d);
+                        push_violation(&mut res, spec, "dirichlet", *n, 0, c, d, &vt);
                     }
                 }
             },
@@ -1051,8 +1073,9 @@ impl Engine for LawEngine {
                     }
                     res.digest = o.digest;
                     res.samples.push(json!({"sampler": spec.label(), "N": n, "scalar_tests": tests, "worst_dkw_ratio": o.info.worst_dkw_ratio, "worst_cell_margin": o.info.worst_cell_margin}));
+                    let vt = o.vtags.clone();
                     if let Some((c, d)) = o.violation {
-                        push_violation(&mut res, spec, "geometry", *n, 0, c, d);
+                        push_violation(&mut res, spec, "geometry", *n, 0, c, d, &vt);
                     }
                 }
             },
@@ -1079,7 +1102,7 @@ impl Engine for LawEngine {
             }
             Some((class, detail)) => {
                 println!("replay: outcome class={class}: {detail}");
-                vec![Violation { sig: sig_of(&c.spec, &class), class, detail, case: case.clone() }]
+                vec![Violation { sig: sig_with_tags(&c.spec, &class, &o.vtags), class, detail, case: case.clone() }]
             }
         })
     }
